@@ -124,7 +124,15 @@ def gen_program(rng, recursive):
         goal = T("t", V("A"), V("B"))
     else:
         k = rng.random()
-        if k < 0.4:
+        if k < 0.2:
+            # the same predicate called with a repeated variable and, afterwards, with distinct ones (and the other
+            # way round): the two call patterns must not share their tabled answers
+            if rng.random() < 0.5:
+                prog.append((T("q", V("X"), V("Z")), [T("p", V("X"), V("X")), T("p", V("Y"), V("Z"))]))
+            else:
+                prog.append((T("q", V("X"), V("Z")), [T("p", V("Y"), V("Z")), T("p", V("X"), V("X"))]))
+            goal = T("q", V("A"), V("B"))
+        elif k < 0.4:
             prog.append((T("q", V("X"), V("Z")), [T("p", V("X"), V("Y")), T("p", V("Y"), V("Z"))]))
             goal = T("q", V("A"), V("B"))
         elif k < 0.7:
